@@ -164,7 +164,7 @@ def snapshot(obj):
     if isinstance(obj, TM):
         return {'kind': 'tm', 'Q': sorted(_s(q) for q in obj.Q), 'Sigma': sorted(_s(a) for a in obj.Sigma),
                 'Gamma': sorted(_s(a) for a in obj.Gamma),
-                'delta': sorted([_s(p), _s(a), _s(t[0]), _s(t[1]), _s(t[2])] for (p, a), t in obj.delta.items()),
+                'delta': sorted(_tm_entry(p, a, t) for (p, a), t in obj.delta.items()),
                 'q0': _s(obj.q0), 'acc': _s(obj.q_accept), 'rej': _s(obj.q_reject), 'blank': _s(obj.blank)}
     if isinstance(obj, CFG):
         return {'kind': 'cfg', 'V': sorted(_s(v) for v in obj.V), 'Sigma': sorted(_s(t) for t in obj.Sigma),
@@ -178,6 +178,12 @@ def snapshot(obj):
         except TypeError:
             return {'kind': 'set', 'items': sorted((repr(_plain(x)) for x in obj))}
     return {'kind': 'value', 'value': _plain(obj)}
+
+
+def _tm_entry(p, a, t):
+    if isinstance(t, tuple) and len(t) == 3 and all(isinstance(x, str) for x in t):
+        return [_s(p), _s(a), str(t[0]), str(t[1]), str(t[2])]
+    return [_s(p), _s(a), '<not a transition>', repr(_plain(t)), '']      # content a correct machine never has
 
 
 def _tag(s):
